@@ -105,11 +105,38 @@ def _fit_compare(ref, tra, o, corpus, other, facts, tol, stage="", container="li
 def check(case):
     o = case["options"]
     kw = _kwargs(o)
+    kw_ref, kw_tra = dict(kw), dict(kw)
+    fv = case.get("fixed_vocabulary")
+    if fv:
+        # a vocabulary fixed by the caller, as a mapping n-gram -> column whose insertion order is not its column order (another fitted
+        # vectorizer's vocabulary_ looks like that): scikit-learn gets the space-joined n-grams, the traceable class the token tuples
+        terms = [t for t in fv if o["ngram_range"][0] <= len(t) <= o["ngram_range"][1]]
+        terms = [[w.lower() for w in t] for t in terms] if o["lowercase"] else terms
+        seen, uniq = set(), []
+        for t in terms:
+            if tuple(t) not in seen:
+                seen.add(tuple(t))
+                uniq.append(tuple(t))
+        if uniq:
+            order = case.get("vocabulary_order", [])
+            cols_ = list(range(len(uniq)))
+            perm_ = sorted(cols_, key=lambda i: (order[i % len(order)] if order else 0, i))
+            kw_ref["vocabulary"] = {" ".join(uniq[i]): perm_.index(i) for i in cols_}
+            kw_tra["vocabulary"] = {uniq[i]: perm_.index(i) for i in cols_}
+            for kx in ("min_df", "max_df", "max_features"):
+                kw_ref.pop(kx), kw_tra.pop(kx)
+            kw_ref.update(min_df=1, max_df=1.0, max_features=None)
+            kw_tra.update(min_df=1, max_df=1.0, max_features=None)
+            if o["kind"] == "tfidf":
+                # a fixed term may occur in no document: without smoothing scikit-learn's own idf divides by zero (inf / nan on both sides)
+                kw_ref["smooth_idf"] = kw_tra["smooth_idf"] = True
+        else:
+            fv = None
     if o["kind"] == "tfidf":
-        ref, tra = TfidfVectorizer(**kw), _mod.TraceableTfidfVectorizer(**kw)
+        ref, tra = TfidfVectorizer(**kw_ref), _mod.TraceableTfidfVectorizer(**kw_tra)
         tol = 1e-12
     else:
-        ref, tra = CountVectorizer(**kw), _mod.TraceableCountVectorizer(**kw)
+        ref, tra = CountVectorizer(**kw_ref), _mod.TraceableCountVectorizer(**kw_tra)
         tol = 0.0
     corpus, other = list(case["corpus"]), list(case["other"])
     for lg in case.get("long", []):
@@ -147,6 +174,7 @@ def check(case):
     if case.get("long"):
         labels.append("long-document")
     labels.append("corpus:" + cont)
+    labels.append("fixed-vocabulary" if fv else "learned-vocabulary")
     if first is None:
         return Outcome(labels, False)
     return Outcome(labels, b >= 2 or o["stop_words"] is not None or removed)
@@ -188,7 +216,11 @@ def _cases(draw, tier="quick"):
         for _ in range(draw(st.integers(1, 2))):
             long.append(dict(pattern=draw(st.lists(st.sampled_from(WORDS), min_size=3, max_size=11)),
                              length=draw(st.sampled_from([257, 511, 512, 513, 600, 1023, 1025, 1500, 2049])), where=draw(st.sampled_from(["corpus", "other"]))))
-    return dict(corpus=corpus, other=other, options=o, options2=o2, long=long, container=draw(st.sampled_from(["list", "list", "tuple", "iterator", "generator"])))
+    fixed = None
+    if o2 is None and draw(st.integers(0, 5)) == 0:
+        fixed = draw(st.lists(st.lists(st.sampled_from(WORDS), min_size=1, max_size=3), min_size=1, max_size=8))
+    return dict(corpus=corpus, other=other, options=o, options2=o2, long=long, fixed_vocabulary=fixed,
+                vocabulary_order=draw(st.lists(st.integers(0, 100), min_size=8, max_size=8)), container=draw(st.sampled_from(["list", "list", "tuple", "iterator", "generator"])))
 
 
 CLAUSES = [
